@@ -42,6 +42,7 @@ def generator_sets(tier):
            script_from_yields((1, -1)))
     sets['odd-waits'] = odd
     if tier == 'quick':
+        sets['odd-waits'] = odd[1:]
         for name in ('kill-self-return', 'kill-start-self-return',
                      'kill-other', 'kill-start-other'):
             sets[name] = (g1, script_from_yields((None, 1)), variants[name])
